@@ -183,7 +183,10 @@ def run(ctx):
 
     # ---------------- pentads: every day of a year; term day index and the three-per-term split
     ph_names = t.names('PHENOLOGY_NAMES')
-    for era, tm0 in (('', typical_terms(range(Y - 1, Y + 3))), (':julian-era', typical_terms(range(Y - 1, Y + 3), shift=dict((i, -12) for i in range(24))))):
+    tm_mid = typical_terms(range(Y - 1, Y + 3))
+    for i_ in (4, 9, 18):
+        tm_mid[(Y, i_)] = (tm_mid[(Y, i_)][0] - 1, 86399.7)     # instant 0.3 s before midnight: the library reports the term on the NEXT civil day (rounded to the second)
+    for era, tm0 in (('', typical_terms(range(Y - 1, Y + 3))), (':julian-era', typical_terms(range(Y - 1, Y + 3), shift=dict((i, -12) for i in range(24)))), (':term-at-midnight', tm_mid)):
         three = t.names('THREE_PHENOLOGY_NAMES')
 
         def pheno(n):
@@ -195,7 +198,7 @@ def run(ctx):
             return (t.name(ph), py(t.m(r, 'get_day_index')), t.name(t.m(ph, 'get_three_phenology')), t.name(t.m(td, 'get_solar_term')), py(t.m(td, 'get_day_index')))
 
         def pheno_orc(n):
-            best = max((tn, ti) for (ty, ti), (tn, ts) in tm0.items() if tn <= n)
+            best = max((tn + (1 if ts >= 86399.5 else 0), ti) for (ty, ti), (tn, ts) in tm0.items() if tn + (1 if ts >= 86399.5 else 0) <= n)
             i = n - best[0]
             pent = min(i // 5, 2)
             return (ph_names[best[1] * 3 + pent], i - 5 * pent, three[pent], TERMS[best[1]], i)
@@ -206,14 +209,15 @@ def run(ctx):
         jie_branch = dict((i, G.BRANCHES[(2 + (i - 3) // 2) % 12]) for i in range(1, 24, 2))   # 立春(3)->寅 ... 小寒(1)->丑
         domc = []
         for ti in range(1, 24, 2):
-            tn = tm0[(Y, ti)][0]
-            nxt = tm0[(Y, ti + 2)][0] if ti + 2 < 24 else tm0[(Y + 1, 1)][0]
+            rd = lambda v: v[0] + (1 if v[1] >= 86399.5 else 0)
+            tn = rd(tm0[(Y, ti)])
+            nxt = rd(tm0[(Y, ti + 2)]) if ti + 2 < 24 else rd(tm0[(Y + 1, 1)])
             domc += [(ti, k) for k in range(0, nxt - tn)]
 
         def cmd(a):
             ti, k = a
             cm = CalModel(I, tm0, months)
-            r = t.m(cm.solar_day_n(tm0[(Y, ti)][0] + k), 'get_hide_heaven_stem_day')
+            r = t.m(cm.solar_day_n(tm0[(Y, ti)][0] + (1 if tm0[(Y, ti)][1] >= 86399.5 else 0) + k), 'get_hide_heaven_stem_day')
             h = t.m(r, 'get_hide_heaven_stem')
             return (t.name(t.m(h, 'get_heaven_stem')), t.name(t.m(h, 'get_type')), py(t.m(r, 'get_day_index')))
 
